@@ -79,6 +79,9 @@ func (c01) Gen(r *sim.Rand, c *sim.Case, tier string) {
 		g.Fam |= world.FImage
 		n = r.Range(2, 15)
 	}
+	if c.Cfg["foreign"] == 0 && r.Chance(0.15) { // the document starts as the result of a Markdown conversion
+		ops = append(ops, sim.Op{K: "md", I: []int{r.Intn(32)}, S: []sim.Str{sim.Str(g.Markdown(true))}})
+	}
 	ops = append(ops, g.DocOps(0, n)...)
 	ops = sprinkleSaves(r, ops, 0, r.Range(3, 12), 0.35, 0.1)
 	if r.Chance(0.3) { // interfering second document that uses lists
